@@ -9,7 +9,7 @@
    overlaps, nesting, equal ranges, partial downsampling, empty levels and
    degenerate blocks are all allowed; mint, maxt, maxres are arbitrary integers. *)
 From Coq Require Import String.
-From Coq Require Import ZArith NArith List Bool.
+From Coq Require Import ZArith NArith List Bool Permutation.
 Import ListNotations.
 From Verif Require Import Lib.Corr Gen.C15 Model.C15 Proofs.C15.
 Open Scope Z_scope.
@@ -82,6 +82,42 @@ Theorem C15_unfixed_panics_refuted :
   get_for_top false witness_levels 0 30 (-1) = None /\ get_for_top true witness_levels 0 30 (-1) = Some [].
 Proof. exact unfixed_panics. Qed.
 Print Assumptions C15_unfixed_panics_refuted.
+
+(* Histories. The set is driven by add / remove / getFor calls (ids of added blocks new). The
+   model keeps one list per resolution: add inserts at its place in (min, max) order (append +
+   sort, up to the order of equal ranges), remove deletes preserving the order (source fact
+   C15_remove_shape). EVERY reachable state is a well-formed set (right resolutions, sorted by
+   min time, ids distinct) holding exactly the blocks added and not removed — and therefore in
+   every reachable state every getFor satisfies the four clauses against the blocks currently
+   in the set. *)
+Theorem C15_reachable_clauses : forall ops, fresh_ids [] ops = true ->
+  let lv := fst (hstate_run ops) in let cur := snd (hstate_run ops) in
+  wf_levels lv /\ NoDup (map bid (concat lv)) /\ Permutation (concat lv) cur /\
+  forall mint maxt maxres out, get_for_top true lv mint maxt maxres = Some out ->
+    Forall (fun b => bres b <= maxres) out /\
+    Forall (fun b => bmin b <= maxt /\ mint < bmax b) out /\ incl out cur /\
+    NoDup (map bid out) /\
+    (forall t b, mint <= t <= maxt -> In b cur -> bres b <= maxres -> covers b t = true ->
+       exists b', In b' out /\ covers b' t = true).
+Proof. exact reachable_clauses. Qed.
+Print Assumptions C15_reachable_clauses.
+
+(* sortedness is needed: on the level that a swap-with-last removal of the oldest of four blocks
+   leaves behind, getFor returns nothing for [-2,10] although the block 10-20 covers instant 10;
+   the order-preserving removal returns that block *)
+Theorem C15_unsorted_level_refuted :
+  let lv := [[]; []; [mkBlock 4 30 40 0; mkBlock 2 10 20 0; mkBlock 3 20 30 0]] in
+  sorted_by blk_le (nth 2 lv []) = false /\
+  get_for_top true lv (-2) 10 0 = Some [] /\
+  covers (mkBlock 2 10 20 0) 10 = true /\
+  get_for_top true (mremove 1 (fold_left (madd resolutions) [mkBlock 1 0 10 0; mkBlock 2 10 20 0; mkBlock 3 20 30 0; mkBlock 4 30 40 0] mset_init)) (-2) 10 0
+    = Some [mkBlock 2 10 20 0].
+Proof. exact unsorted_level_refuted. Qed.
+Print Assumptions C15_unsorted_level_refuted.
+
+Theorem C15_remove_shape : removeAssigns = ["s.blocks[i] = append(bs[:j], bs[j+1:]...)"]%string.
+Proof. exact remove_shape. Qed.
+Print Assumptions C15_remove_shape.
 
 (* Tie T. *)
 Theorem C15_source_shape :
